@@ -9,13 +9,20 @@ from ..oracle import cal, leap, tzif
 EP_MAX = (cal.ORD_MAX - 606 - cal.ORD_UNIX) * 86400      # stay clear of finding F1
 
 
-def civ(e, leap_label=False):
+KALS = ("ymd", "ymcw", "ywd", "yd", "epoch")
+
+
+def civ(e, leap_label=False, kal="ymd"):
+    if kal == "epoch":
+        # the count of seconds has no label for an inserted second, it reads as the midnight after it
+        return str(e + (1 if leap_label else 0))
     o = e // 86400 + cal.ORD_UNIX
     s = e % 86400
+    d = getattr(cal.Day(o), kal)()
     if leap_label:
         # e is the last regular second before the inserted one
-        return cal.Day(o).ymd() + "T23:59:60"
-    return cal.Day(o).ymd() + "T%02d:%02d:%02d" % (s // 3600, s // 60 % 60, s % 60)
+        return d + "T23:59:60"
+    return d + "T%02d:%02d:%02d" % (s // 3600, s // 60 % 60, s % 60)
 
 
 def pt(x):
@@ -74,12 +81,18 @@ def offs_task(task):
 
 
 def rdiff_task(task):
-    bindir, a, bs = task
+    bindir, a, bs = task[:3]
+    kal = task[3] if len(task) > 3 else "ymd"
     sh = Shard()
     L = leap.Leaps()
     a, bs = pt(a), [pt(b) for b in bs]
-    lines = [civ(*b) for b in bs]
-    argv = [str(bindir / "ddiff"), civ(*a), "-f", "%rS"]
+    lines = [civ(*b, kal=kal) for b in bs]
+    if kal == "epoch":
+        if a[1]:
+            return sh
+        bs = [b for b in bs if not b[1]]
+        lines = [civ(*b, kal=kal) for b in bs]
+    argv = [str(bindir / "ddiff")] + (["-i", "%s"] if kal == "epoch" else []) + [civ(*a, kal=kal), "-f", "%rS"]
     r = run(argv, stdin=("\n".join(lines) + "\n").encode(), cpu=30, wall=120)
     sh.procs += 1
     sh.check_san(r, "san", "leap:rdiff")
@@ -106,14 +119,14 @@ def rdiff_task(task):
         lo, hi = min(a[0], b[0]), max(a[0], b[0])
         sa = "inserted" if a[1] else side(L, a[0])[1]
         sb = "inserted" if b[1] else side(L, b[0])[1]
-        c = ("rdiff", "+" if sgn > 0 else "-", "leaps%d" % min(nl, 3), sa, sb) + (("beyond-2^31",) if hi - lo >= 2 ** 31 else ())
+        c = ("rdiff", kal, "+" if sgn > 0 else "-", "leaps%d" % min(nl, 3), sa, sb) + (("beyond-2^31",) if hi - lo >= 2 ** 31 else ())
         want3 = "%d|%d|%d" % (want_r, abs(want_s), abs(want_r))
         if got3 == want3:
             sh.ok("leap-diff", c + ("one-format",))
         else:
-            sh.bad("leap-diff", "leap:rdiff3:%s:%s:a=%s:b=%s" % (c[1], "with-leaps" if nl else "no-leaps", sa, sb),
-                   "ddiff %s %s -f '%%rS|%%S|%%rS' -> %r, expected %s (%d leap second(s) in between)" % (civ(*a), civ(*b), got3, want3, nl),
-                   dict(argv=argv[:-1] + ["%rS|%S|%rS"], input=civ(*b), expected=want3, observed=got3), cls=c + ("one-format",))
+            sh.bad("leap-diff", "leap:rdiff3:%s%s:%s:a=%s:b=%s" % ("" if kal == "ymd" else kal + ":", c[2], "with-leaps" if nl else "no-leaps", sa, sb),
+                   "ddiff %s %s -f '%%rS|%%S|%%rS' -> %r, expected %s (%d leap second(s) in between)" % (civ(*a, kal=kal), civ(*b, kal=kal), got3, want3, nl),
+                   dict(argv=argv[:-1] + ["%rS|%S|%rS"], input=civ(*b, kal=kal), expected=want3, observed=got3), cls=c + ("one-format",))
         if got == "%d|%d" % (want_r, want_s):
             sh.ok("leap-diff", c)
         else:
@@ -123,23 +136,27 @@ def rdiff_task(task):
                 ds = "malformed" if False else ("delta=%d" % d if abs(d) <= 3 else "delta=big")
             except Exception:
                 ds = "malformed"
-            sh.bad("leap-diff", "leap:rdiff:%s:%s:%s:a=%s:b=%s" % (c[1], "with-leaps" if nl else "no-leaps", ds, sa, sb),
+            sh.bad("leap-diff", "leap:rdiff:%s%s:%s:%s:a=%s:b=%s" % ("" if kal == "ymd" else kal + ":", c[2], "with-leaps" if nl else "no-leaps", ds, sa, sb),
                    "ddiff %s %s -f %%rS (and -f %%S) -> %r, expected %d|%d (%d leap second(s) in between)" %
-                   (civ(*a), civ(*b), got, want_r, want_s, nl),
-                   dict(argv=argv, input=civ(*b), expected="%d|%d" % (want_r, want_s), observed=got), cls=c)
+                   (civ(*a, kal=kal), civ(*b, kal=kal), got, want_r, want_s, nl),
+                   dict(argv=argv, input=civ(*b, kal=kal), expected="%d|%d" % (want_r, want_s), observed=got), cls=c)
     return sh
 
 
 def radd_task(task):
-    bindir, n, ts = task
+    bindir, n, ts = task[:3]
+    kal = task[3] if len(task) > 3 else "ymd"
     sh = Shard()
     L = leap.Leaps()
     ts = [pt(t) for t in ts]
     ts = [t for t in ts if t[0] >= 0 and t[0] + n >= 0]
     if not ts:
         return sh
-    lines = [civ(*t) for t in ts]
-    argv = [str(bindir / "dadd"), "--", "%+drs" % n]
+    if kal == "epoch":
+        ts = [t for t in ts if not t[1]]
+    lines = [civ(*t, kal=kal) for t in ts]
+    argv = [str(bindir / "dadd")] + (["-i", "%s", "-f", "%s"] if kal == "epoch" else []) + ["--"] + \
+        (["+0s"] if kal == "epoch" and n < 0 else []) + ["%+drs" % n]        # -i %s would read a leading -N as the operand
     r = run(argv, stdin=("\n".join(lines) + "\n").encode(), cpu=30, wall=120)
     sh.procs += 1
     sh.check_san(r, "san", "leap:radd")
@@ -147,16 +164,16 @@ def radd_task(task):
     for (t, tlab), got in zip(ts, outs):
         # from an inserted second: one SI second past the 23:59:59 before it
         u, lab = L.add_si(t, n + tlab)
-        want = civ(u, lab)
+        want = civ(u, lab, kal)
         crossed = L.leaps_between(min(t, u), max(t, u) + (1 if lab else 0))
         c = ("radd", "+" if n > 0 else "-", "lands-on-leap" if lab else "crosses%d" % min(crossed, 2),
-             "small" if abs(n) < 100 else "day" if abs(n) < 200000 else "year") + (("from-inserted",) if tlab else ())
+             "small" if abs(n) < 100 else "day" if abs(n) < 200000 else "year") + (("from-inserted",) if tlab else ()) + ((kal,) if kal != "ymd" else ())
         if got == want:
             sh.ok("leap-add", c)
         else:
-            sh.bad("leap-add", "leap:radd:%s:%s:%s%s" % (c[1], c[2], c[3], ":from-inserted" if tlab else ""),
-                   "dadd %s %+drs -> %r, %d SI seconds later is %s" % (civ(t, tlab), n, got, n, want),
-                   dict(argv=argv, input=civ(t, tlab), expected=want, observed=got), cls=c)
+            sh.bad("leap-add", "leap:radd:%s:%s:%s%s" % (c[1], c[2], c[3], (":from-inserted" if tlab else "") + (":" + kal if kal != "ymd" else "")),
+                   "dadd %s %+drs -> %r, %d SI seconds later is %s" % (civ(t, tlab, kal), n, got, n, want),
+                   dict(argv=argv, input=civ(t, tlab, kal), expected=want, observed=got), cls=c)
     return sh
 
 
@@ -288,6 +305,10 @@ def main(tier, seed):
     anchors = pts if not quick else rng.sample(ins, 6) + rng.sample(pts, 40) + [L.steps[0] - 1, L.steps[0], L.steps[-1] - 1, L.steps[-1]]
     for a in anchors:
         tasks.append(("rdiff", (bindir, a, pts + [rng.randrange(L.ts[0], L.ts[-1] + 10 ** 8) for _ in range(30)])))
+    # the same in the other calendars a date-time can be written in (each has its own column of the table, or none)
+    for kal in KALS[1:]:
+        for a in (anchors if not quick else rng.sample(anchors, 8)):
+            tasks.append(("rdiff", (bindir, a, pts + [rng.randrange(L.ts[0], L.ts[-1] + 10 ** 8) for _ in range(30)], kal)))
     # +Nrs
     # around every inserted second, and around the table's first row (1972-01-01), which is NOT an insertion
     add_ts = sorted(set(t + d for t in L.steps for d in range(-5, 6)) | set(L.ts[0] + d for d in (-20, -10, -1, 0, 1, 10)))
@@ -298,6 +319,9 @@ def main(tier, seed):
     for n in [1, 2, 3, 4, 5, 6, 86400, 86401, 31536000, 63072000] + spans + [rng.randrange(1, 10 ** 8) for _ in range(6 if quick else 80)]:
         for s in (1, -1):
             tasks.append(("radd", (bindir, s * n, add_ts + ins + [rng.randrange(L.ts[0] + 100, L.ts[-1] + 10 ** 8) for _ in range(40)])))
+            if not quick or n in (1, 2, 86401, 63072000, 63072001) or n > 10 ** 6 and n % 3 == 0:
+                for kal in KALS[1:]:
+                    tasks.append(("radd", (bindir, s * n, add_ts + ins + [rng.randrange(L.ts[0] + 100, L.ts[-1] + 10 ** 8) for _ in range(10)], kal)))
     # the same additions with the operand given in a zone's wall clock and further durations next to the real seconds
     for zone in ZONES:
         for n in [1, 2, 5, 30, 86401] + [rng.randrange(1, 10 ** 6) for _ in range(2 if quick else 20)]:
@@ -314,7 +338,7 @@ def main(tier, seed):
                 "seconds = UTC difference + leap seconds in (A,B], antisymmetric, also for operands more than 2^31 and 2^32 s apart, with %%rS|%%S|%%rS in one format, and with either operand an inserted second 23:59:60; (3) dadd DT +-Nrs for instants -5..+5 s "
                 "around every inserted second (and from the inserted seconds themselves) x N in {1..6, 86400, 86401, 1 y, 2 y, random}: lands N SI seconds later, "
                 "23:59:60 exactly on inserted seconds; N also the distance between any two insertions +-3 s; (4) the same with the operand in a zone's wall clock "
-                "(dadd --from-zone Z -- [Kd] Nrs [0d], %d zones): real seconds count on the UTC line. Oracle = lib/leap-seconds.list (%d entries, %d insertions). "
+                "(dadd --from-zone Z -- [Kd] Nrs [0d], %d zones): real seconds count on the UTC line. (2) and (3) also with the date-times written as ymcw, ywd, yd and as epoch seconds (-i %%s; an inserted second then reads as the following midnight). Oracle = lib/leap-seconds.list (%d entries, %d insertions). "
                 "distinct_nontrivial = distinct (monitor, sign/zone, era or leaps crossed, side of the boundary)" %
                 (len(ZONES), len(L.ts), len(L.steps)))
     ctx.assumptions = ["TAI-UTC before 1972-01-01 is taken as the table's first value (10 s)",
